@@ -11,12 +11,19 @@
    event comes in the first iteration at or after a goodbye's second / TTL / verify timeout ran
    out) and the requested wake-up is not later than that instant; no ServiceResolved after
    ServiceRemoved without new records.
-   It is FALSE of the faithful model (C05_removed_on_time_refuted; the simulated daemon agrees
-   up to hash order): known findings known/C05.json - instance under two PTR names, SRV target
-   in mixed case, PTR variants differing in the cache-flush bit, expiry during the PTR's goodbye
-   second.  Proved here, for all caches and times: what the evictions do exactly, where every
-   ServiceRemoved comes from, the goodbye second, verify (_partial: the history-level statement
-   outside the four classes is checked by the monitor on every generated history). *)
+   It is FALSE of the faithful model (C05_removed_on_time_refuted; the simulated daemon agrees).
+   After the repairs of round 2 (SRV expiry reported under every PTR name, host names compared
+   without regard to case) the known findings that stay (known/C05.json) are: PTR variants
+   differing in the cache-flush bit, expiry during the PTR's goodbye second, and - still hash-
+   order dependent - the expiry of the last ADDRESS of an instance under two browsed PTR names
+   (resolve_updated_instances reports it under one of them).  The former witness of the repaired
+   two-names defect is now an example that passes (C05_example_two_names).  Proved here, for all
+   caches and times: what the evictions do exactly, when an instance is reported and under
+   which names, where every ServiceRemoved comes from, the goodbye second, verify (_partial:
+   the history-level statement outside the three classes is checked by the monitor on every
+   generated history:
+       forall ifs h wakes, wf_history h = true -> ~ Known_C05 h ->
+         chk_C05 ifs h wakes (map obs_of (run_history ifs h)) = true ). *)
 From Coq Require Import List NArith Bool.
 From Mdns Require Import Res Bytes Rec Wire Txt Cache Browser C03Spec BrowserSpec CacheProofs BrowserStepProofs
   BrowserExamples.
@@ -26,7 +33,6 @@ Open Scope N_scope.
 (* evict_spec: evict_expired_services leaves exactly the unexpired PTR / SRV / TXT / NSEC
    records (now < expires), in order, drops emptied SRV/TXT/NSEC buckets, touches nothing else. *)
 Theorem C05_evict_services_exact : forall c now,
-  NoDup (map fst (c_srv c)) -> NoDup (map fst (c_txt c)) ->
   fst (evict_services c now) =
   mkCache (map (fun kb => (fst kb, live_only now (snd kb))) (c_ptr c))
           (sweep now (c_srv c)) (sweep now (c_txt c)) (c_addr c) (sweep now (c_nsec c)) (c_sub c).
@@ -52,18 +58,21 @@ Theorem C05_expired_ptr_reported : forall c now ty ptrs p,
   In (ty, alias_of (e_rr p)) (snd (evict_services c now)).
 Proof. exact evict_services_reports_expired_ptr. Qed.
 
-(* ... and the eviction reports only instances some PTR of that ty_domain points to. *)
-Theorem C05_evict_reports_only_pointed : forall c now t i,
-  In (t, i) (snd (evict_services c now)) ->
-  exists ptrs p, In (t, ptrs) (c_ptr c) /\ In p ptrs /\ alias_of (e_rr p) = i.
-Proof. exact evict_reported_has_ptr. Qed.
+(* ... so is the expiry of the last SRV record of an instance, under EVERY ty_domain (type and
+   subtype) that has a PTR to it (the repaired two-PTR-names defect) ... *)
+Theorem C05_srv_expiry_reported_under_every_name : forall c now ty ptrs p sb,
+  In (ty, ptrs) (c_ptr c) -> In p ptrs ->
+  In (alias_of (e_rr p), sb) (c_srv c) -> live_only now sb = [] ->
+  In (ty, alias_of (e_rr p)) (snd (evict_services c now)).
+Proof. exact evict_services_reports_srv_expiry. Qed.
 
-(* removed_only_when_true, eviction path: (ty, instance) is reported only if a PTR record
-   ty -> instance expired, or the instance has SRV records and none of them is unexpired. *)
+(* ... and removed_only_when_true, eviction path: (ty, instance) is reported only if a PTR
+   record ty -> instance exists and that PTR expired, or the instance has an SRV bucket in which
+   no record is unexpired. *)
 Theorem C05_evict_reports_only_when_true : forall c now t i,
   In (t, i) (snd (evict_services c now)) ->
-  (exists ptrs p, In (t, ptrs) (c_ptr c) /\ In p ptrs /\ alias_of (e_rr p) = i /\ is_expired p now = true)
-  \/ (exists sb, bm_get i (c_srv c) = Some sb /\ live_only now sb = []).
+  exists ptrs p, In (t, ptrs) (c_ptr c) /\ In p ptrs /\ alias_of (e_rr p) = i
+    /\ (is_expired p now = true \/ exists sb, In (i, sb) (c_srv c) /\ live_only now sb = []).
 Proof. exact evict_reports_only_when_true. Qed.
 
 (* removed_only_when_true, resolve_updated_instances path: a ServiceRemoved it emits is for an
@@ -82,7 +91,8 @@ Proof. exact goodbye_reset_expires. Qed.
 Theorem C05_unexpired_iff : forall e now, is_expired e now = false <-> now < e_expires e.
 Proof. exact is_expired_false. Qed.
 
-(* verify: every SRV record of the instance gets expires := min(now + timeout, expires); the
+(* verify: every SRV record of the instance (and, since the repair of D21, the addresses filed
+   under the lower-cased SRV target) gets expires := min(now + timeout, expires); the
    questions are (instance, SRV) and (host, A), (host, AAAA) per SRV; an answer (a matching
    record) restores created + 1000 * ttl. *)
 Theorem C05_verify_shortens : forall c inst x sb,
@@ -99,8 +109,9 @@ Proof. exact verify_questions. Qed.
 Theorem C05_answer_restores : forall e r now, e_expires (reset_ttl e r now) = now + 1000 * r_ttl r.
 Proof. exact reset_ttl_expires. Qed.
 
-(* The history-level statement is false of the faithful model: instance under type and subtype
-   PTR, both browsed, SRV runs out - one channel never gets ServiceRemoved. *)
+(* The history-level statement is false of the faithful model: the PTR is delivered a second
+   time with the cache-flush bit and TTL 2 s; ServiceRemoved at +2 s although the first PTR, the
+   SRV and the address are live (finding C05-ptr-variant-expiry). *)
 Theorem C05_removed_on_time_refuted :
   exists ifs h wakes, wf_history h = true /\ chk_C05 ifs h wakes (map obs_of (run_history ifs h)) = false.
 Proof. exact chk_C05_refuted. Qed.
@@ -112,12 +123,20 @@ Example C05_example :
   /\ chk_C05 ex_ifs ex_hist (ex_wakes ex_hist) (map obs_of (run_history ex_ifs ex_hist)) = true.
 Proof. split; [vm_compute; reflexivity|exact (proj2 ex_hist_chk45)]. Qed.
 
+(* Repaired in round 2, now passing: instance under type and subtype PTR, both browsed, the SRV
+   (TTL 3 s) runs out: both channels get ServiceRemoved in the iteration at +3 s. *)
+Example C05_example_two_names :
+  wf_history twonames_hist = true
+  /\ map (fun o => length (filter is_removed_evt o)) (run_history ex_ifs twonames_hist) = [0; 0; 2; 0]%nat
+  /\ chk_C05 ex_ifs twonames_hist (ex_wakes twonames_hist) (map obs_of (run_history ex_ifs twonames_hist)) = true.
+Proof. exact twonames_facts. Qed.
+
 Print Assumptions C05_evict_services_exact.
 Print Assumptions C05_evict_addr_exact.
 Print Assumptions C05_live_only_is.
 Print Assumptions C05_sweep_is.
 Print Assumptions C05_expired_ptr_reported.
-Print Assumptions C05_evict_reports_only_pointed.
+Print Assumptions C05_srv_expiry_reported_under_every_name.
 Print Assumptions C05_evict_reports_only_when_true.
 Print Assumptions C05_removed_when_invalid_partial.
 Print Assumptions C05_goodbye_new.
@@ -129,3 +148,4 @@ Print Assumptions C05_verify_questions.
 Print Assumptions C05_answer_restores.
 Print Assumptions C05_removed_on_time_refuted.
 Print Assumptions C05_example.
+Print Assumptions C05_example_two_names.
